@@ -244,8 +244,14 @@ def run(ctx) -> dict:
         else:
             r2.ok()
     counts['named_atomic_types'] = len(named)
+    # typed values are a function of (node, schema): the decoder and the node classes keep no
+    # process-wide state beyond the reviewed inventory (no cross-evaluation caches)
+    from .c19_global import r19_5 as _r19_5
+    _state = _r19_5(ctx, counts, lambda f: f.module.name in (
+        'elementpath.decoder', 'elementpath.schema_proxy', 'elementpath.xpath_nodes',
+        'elementpath.xpath_context'), 0)
     return {
-        'results': [r1, r2, r20_3(ctx, counts)], 'counts': counts,
+        'results': [r1, r2, r20_3(ctx, counts), _state], 'counts': counts,
         'explanation':
             'Only the table-shaped necessary condition of "the typed value is an instance of the '
             'datatype class of its declared type" is decided: the prototype table that '
